@@ -170,6 +170,17 @@ func main() {
 			cs = append(cs, c)
 		}
 	}
+	var matchCl []yae.Callable
+	for kind := 0; kind < 3; kind++ {
+		te := tenv()
+		te.Put("pat", types.Str)
+		cl, err := newEngine(kind).Compile(`match(pat, s) && match(pat, "h" + s)`, te)
+		if err != nil {
+			fmt.Println("MISMATCH setup match", err)
+			os.Exit(3)
+		}
+		matchCl = append(matchCl, cl)
+	}
 	// environment objects shared by all goroutines (never written after this point)
 	var sharedEnv [7]*val.Env
 	for k := range sharedEnv {
@@ -200,6 +211,11 @@ func main() {
 				case 2, 3, 4: // one compiled expression, many goroutines, distinct environment objects
 					c := cs[rn.Intn(len(cs))]
 					got, exp, what = outOf(c.cl, venv(k)), c.want[k], c.src
+				case 5: // a built-in fed with a value it has never seen in this process (caches keyed by the argument)
+					pat := fmt.Sprintf("^h.*(%d)?[a-z]*$", rn.Int63())
+					ve := venv(k)
+					ve.Put("pat", val.Str(pat))
+					got, exp, what = outOf(matchCl[rn.Intn(len(matchCl))], ve), "bool true", "match(pat, s) with a fresh pattern"
 				default: // one compiled expression, many goroutines, ONE environment object
 					c := cs[rn.Intn(len(cs))]
 					got, exp, what = outOf(c.cl, sharedEnv[k]), c.want[k], c.src+" (shared env)"
